@@ -183,7 +183,7 @@ func gen(r *hlib.Rand, n int, tier, profile string, emit func(string, ...any)) {
 			t := base + r.Intn(nthreads)
 			if lock {
 				// every send is one critical section
-				if !raced && r.Chance(1, 40) {
+				if !raced && r.Chance(1, 15) {
 					// real goroutines contend for writeLock around the real sendInsideEncrypt
 					raced = true
 					pat := "hhh"
